@@ -70,7 +70,7 @@ NATIVE = dict(
 # extra dev-dependencies written into the scratch copy's Cargo.toml (workspace members only: resolvable offline)
 NATIVE_DEV_DEPS = dict(rumqttd=['rumqttc = { path = "../rumqttc" }'])
 DIGEST_COPIES = {'topic-copies-agree': (3, ['C12'])}
-NATIVE_ENV = dict(quick=dict(VERIF_NMAX=3, VERIF_DEPTH=9, VERIF_TOPIC_LEN=4, VERIF_FILTER_LEN=4, VERIF_EVENT_DEPTH=3, VERIF_REQ_DEPTH=3, VERIF_DEC_ALL=2, VERIF_DEC_LEN=6, VERIF_CODEC_BIG=0, VERIF_LOG_DEPTH=7, VERIF_ADMIT_DEPTH=4, VERIF_BAD_DEPTH=3), thorough=dict(VERIF_NMAX=4, VERIF_DEPTH=12, VERIF_TOPIC_LEN=5, VERIF_FILTER_LEN=4, VERIF_EVENT_DEPTH=4, VERIF_REQ_DEPTH=4, VERIF_DEC_ALL=3, VERIF_DEC_LEN=7, VERIF_CODEC_BIG=1, VERIF_LOG_DEPTH=9, VERIF_ADMIT_DEPTH=5, VERIF_BAD_DEPTH=4))
+NATIVE_ENV = dict(quick=dict(VERIF_NMAX=3, VERIF_DEPTH=9, VERIF_TOPIC_LEN=4, VERIF_FILTER_LEN=4, VERIF_EVENT_DEPTH=3, VERIF_REQ_DEPTH=3, VERIF_DEC_ALL=2, VERIF_DEC_LEN=6, VERIF_CODEC_BIG=0, VERIF_LOG_DEPTH=7, VERIF_ADMIT_DEPTH=4, VERIF_BAD_DEPTH=3, VERIF_EVT_DEPTH=3), thorough=dict(VERIF_NMAX=4, VERIF_DEPTH=12, VERIF_TOPIC_LEN=5, VERIF_FILTER_LEN=4, VERIF_EVENT_DEPTH=4, VERIF_REQ_DEPTH=4, VERIF_DEC_ALL=3, VERIF_DEC_LEN=7, VERIF_CODEC_BIG=1, VERIF_LOG_DEPTH=9, VERIF_ADMIT_DEPTH=5, VERIF_BAD_DEPTH=4, VERIF_EVT_DEPTH=4))
 
 _CLIENT_STATE_TRUSTED = [
     'Kani 0.68 / CBMC 6.11 (bit-precise; machine arithmetic exact, overflow checks on)',
@@ -180,7 +180,7 @@ PROPS = dict(
     C10=dict(
         verus=[], kani=['rumqttc'], native=['rumqttc'],
         scope='rumqttc MqttState v4+v5: handle_incoming_{publish,pubrel,puback,pubrec,pubcomp}, outgoing_{puback,pubrec,disconnect,subscribe,unsubscribe,ping}: reply kind/id, manual_acks, unsolicited acks are errors with bookkeeping unchanged, exactly one Outgoing event per written packet',
-        residual='Network::readb batching / flush and the order in which EventLoop pops events are async code (unverified composition); handle_incoming_packet dispatch (pushes Event::Incoming first) is read, not verified (Instant::now + large enum clone are outside CBMC reach in reasonable time)',
+        residual='Network::readb batching / flush and the order in which EventLoop pops events are async code (unverified composition); the handle_incoming_packet / handle_outgoing_packet dispatchers (Instant::now + large enum clone: outside CBMC reach in reasonable time) are covered by the bounded native stand-in events_mirror_the_wire_exactly (all histories of 3 steps over 22 request/packet kinds), not by a contract proof',
         trusted_base=_CLIENT_STATE_TRUSTED,
         assumptions=['incoming QoS 2 id table bounded to 8 bits in the inbound harnesses (real table: 65536 bits); ack ids full u16'],
     ),
